@@ -183,7 +183,7 @@ def run_job(env, spec):
                 if M is not None:
                     bounds[key] = (-M + 1, M - 1)
             sysm = Sys(env.P, len(tS.pub), len(tS.priv), tS.cons, fixed, bounds=bounds)
-            enc = sysm.encode()
+            enc = sysm.encode(skip_fixed=False)
             for u in tracesU:
                 if u.path.ok:
                     continue
